@@ -24,6 +24,7 @@ FIXED = [
  ('C10', 'lists every dose up to the final time', 'regimen table of an indefinite regimen drops doses (ignores start, last dose, short final times)'),
  ('C16', 'independent noise for different outputs', 'PredictiveModel.sample with an integer seed gives identical noise to every output'),
  ('C16', 'draws the model indices from the seeded generator', 'PAMPredictiveModel.sample draws model indices from the global NumPy generator'),
+ ('C13', 'lets the population model place pooled', 'PopulationFilterLogPosterior: pooled/heterogeneous dimensions inside Reduced/Covariate wrappers are never filled (-inf everywhere); compositions of several heterogeneous models are filled from the wrong blocks; all-pooled models with free sigma raise a broadcast error in evaluateS1'),
  ('C17', 'releases fixed parameters when the parameter count changes', 'ReducedPopulationModel.set_n_ids leaves a stale fixed-parameter mask when a heterogeneous sub-model changes the parameter count (IndexError in get_parameter_names)'),
  ('C17', 'names the covariate parameters after', "CovariatePopulationModel.set_parameter_names(None) resets coefficient names to generic 'Param. k' names that collide across sub-models and no longer identify the transformed parameter"),
  ('C20', 'accept non-integer IDs', 'PDTimeSeriesPlot / PDPredictivePlot / ResidualPlot raise TypeError for string IDs (trace name formatted with %d)'),
